@@ -18,7 +18,14 @@ V == <<Ev.v[1], Ev.v[2], Ev.v[3]>>
 Step == l' = l + 1
 IsEv(name) == l <= Len(Tr) /\ Ev.e = name
 Init == l = 1 /\ n = 0 /\ cap = 0 /\ full = 0 /\ cnt = 0 /\ best0 = Zero /\ ret = Zero /\ pc = "idle"
+\* start classes (Reset.sc): 0 generic, 2 / 3 all n+1 initial values EQUAL (separable / non-separable quadratic), 4 equal to 1e-12,
+\* 5 start at the minimiser, 6 start 1e3 away, 7 step decade 1e-3..1e3, 9 the previous minimisation once more, 10 a start of the
+\* integer family TLC enumerated from NMTie.tla (2 dimensions; exact arithmetic in the model and in the code).  fs = spread of the
+\* objective over the initial simplex in 1e-15 units (saturating).  The contract below is the same for every class.
 TReset == /\ IsEv("Reset") /\ pc = "idle" /\ Step /\ n' = Ev.n /\ cap' = Ev.cap /\ full' = Ev.full /\ cnt' = 0 /\ pc' = "run"
+          /\ Ev.n \in 2..6
+          /\ (Ev.sc \in {2, 3} => Ev.fs = 0) /\ (Ev.sc = 4 => Ev.fs <= 1000)
+          /\ (Ev.sc = 10 => ((Ev.mflat = 1) <=> (Ev.fs = 0)))      \* family of NMTie.tla: the model and the real objective agree on which starts are flat
           /\ UNCHANGED <<best0, ret>>
 TEval == /\ IsEv("Eval") /\ pc = "run" /\ full = 1 /\ Step /\ cnt' = cnt + 1
          /\ best0' = IF cnt = 0 THEN V ELSE IF cnt < n + 1 /\ Lt(V, best0) THEN V ELSE best0
